@@ -25,5 +25,5 @@ avoid={
 base=open('/tmp/agent-prompt-%s.txt'%pid).read() if False else None
 import subprocess
 txt=subprocess.run(['python3','/verif/tools/agent_prompt.py',pid],capture_output=True,text=True).stdout
-txt=txt.replace('DELIVER in', "ALREADY TAKEN (choose a DIFFERENT mechanism and a different code region if you can): %s.\n\nDELIVER in"%avoid[pid])
+txt=txt.replace('DELIVER in', "ALREADY TAKEN (choose a DIFFERENT mechanism and a different code region if you can): %s.\nPrefer a region of the code base that is NOT the most obvious one for this property — helper and plumbing code such as core/utils, core/hashing, core/asn1parser, core (chains, locations), crl/crlloader (file, URL and multi-scheme loaders), the serializer in crl/crlstore, config parsing/validation, the OCSP checker's request building and HTTP handling — whenever a change there can break the property.\n\nDELIVER in"%avoid[pid])
 print(txt)
